@@ -131,6 +131,8 @@ type opCase struct {
 	cmp    string
 	sbops  []sbOp
 	noReal bool
+	pre    *obs   // result observed inside a sequence (no fresh evaluation)
+	seq    string // the sequence so far, for reports
 }
 
 // direct runs the operation through the Go API of the interpreter.
